@@ -359,7 +359,7 @@ theorem stream_assembled_decodes (DE : Env) (fl : Flags) (check : Nat) (hb tail 
   obtain ⟨ftr, hf, ht⟩ := streamTail_ok check bl.recs tail htail
   have hcnt := indexAppendAll_count_le _ _ hall
   have hlen : (indexEncode bl.recs).length = indexHashSize bl.recs := (index_roundtrip bl.recs acc [] hcnt hall).2
-  have hone := streamOne_complete DE fl true { check := check } hb ftr bl cap [] hhdr hgood hap hcnt hlen hf hcap
+  have hone := streamOne_complete_enc DE fl true { check := check } hb ftr bl cap [] hhdr hgood hap hcnt hlen hf hcap
   rw [List.append_nil] at hone
   have e : hb ++ bl.bytes ++ tail = hb ++ bl.bytes ++ indexEncode bl.recs ++ ftr := by rw [ht]; simp
   rw [e]
